@@ -20,6 +20,11 @@ CHECKS = {
    technique="property-based testing with a counting global allocator: generated, idiom and corpus programs x generated histories, repeated create-play-drop cycles and repeated reset/load rounds; invariant: live heap bytes return to / stay at the baseline",
    text="The harness binary counts live heap bytes per thread. After two warm-up cycles every create -> play -> drop cycle must leave the live byte count exactly where it was, and repeated reset+replay rounds and repeated load_state of one save on one instance must not raise it above the first measured round. Exploration only.",
    note="Exact equality; per-thread counters; histories are replayed identically in every cycle."),
+ "C05": dict(
+   category="translation_validation", design="DESIGN.md §5 C05",
+   technique="differential testing over generated inputs: every corpus (source, reference JSON) pair is compiled and both documents are played by the same runtime along enumerated (breadth-first) and generated (proptest tapes, shrunk) choice paths under several story seeds; transcripts and final globals must be equal",
+   text="All 121 pairs. Per pair and seed: breadth-first enumeration of choice paths to a depth and node cap (exhaustive for the small stories; reported per pair as bfs:exhaustive / bfs:bounded), plus generated deep walks weighted towards The Intercept. Lines with tags, choices with tags, end, error kinds and the final values of every global variable must agree; shuffle pairs are aligned by the seed offset computed from the two sequence containers' path texts. Translation validation of these pairs along the explored paths only.",
+   note="Both documents run on this runtime. Message texts are not compared."),
  "C06": dict(
    category="exploration", design="DESIGN.md §5 C06",
    technique="fuzzing by source mutation (character, line, bracket, splice, identifier-rename mutators over corpus, generated and idiom sources) and token soup, proptest-driven and tape-shrunk, in a worker process under a watchdog; oracles: no panic, error line within the input, output loads, an independent static resolver accepts every emitted reference, compiling twice is byte-identical",
